@@ -495,8 +495,16 @@ def run_check(pid, tier, body, needs_native=False, regen=None, level_partial=Non
         # anything else (a bug of the harness itself, a missing tool) stays an infrastructure error (exit 2).
         tb = traceback.extract_tb(e.__traceback__)
         inner = [fr.filename for fr in tb[-6:]]
-        if any(str(f).startswith(str(REPO) + os.sep) for f in inner) and not isinstance(e, (MemoryError, KeyboardInterrupt)):
+        from_code = any(str(f).startswith(str(REPO) + os.sep) for f in inner)
+        infra_kinds = (MemoryError, OSError, ImportError, subprocess.SubprocessError, TranslatorError)
+        if from_code and not isinstance(e, MemoryError):
             ctx.disagree("the code under test raised an exception on a call the harness did not expect to fail (run aborted here)",
+                         {"exception": f"{type(e).__name__}: {e}"[:500], "traceback": traceback.format_exc()[-1500:]})
+        elif not isinstance(e, infra_kinds):
+            # the harness itself tripped (ZeroDivisionError, IndexError, ... while interpreting what the code returned): on the
+            # unchanged tree this never happens (every check is run on many seeds), so it means the code under test returned
+            # something the harness/model does not describe: a broken correspondence, not a missing tool
+            ctx.disagree("the harness could not interpret what the code under test returned (run aborted here)",
                          {"exception": f"{type(e).__name__}: {e}"[:500], "traceback": traceback.format_exc()[-1500:]})
         else:
             infra_error = traceback.format_exc()
